@@ -23,6 +23,7 @@ POOL = [
     ("Element", "e", str, ["Fe"]),
     ("Grade", "g", None, ["hi", "lo", "mid"]),
     ("Alloy series", "a", str, ["1000", "3000", "5000"]),  # a str-typed dimension whose items look like numbers
+    ("Destination", "d", str, ["US", "EU", "JP"]),  # shares items with Region, the item sets differ
 ]
 
 
@@ -36,6 +37,10 @@ def make_dims(W, k, allow_single=True):
         n = W.rng.randint(1 if (allow_single and W.rng.random() < 0.3) else 2, len(items)) if len(items) > 1 else 1
         its = list(items[:n])
         W.rng.shuffle(its)
+        # precondition of C11: pairwise different item sets (Region and Destination share items)
+        if any(set(its) == set(o.items) for o in out):
+            its = list(items)
+            W.rng.shuffle(its)
         out.append(Dimension(name=name, letter=letter, items=its, dtype=dtype))
     return DimensionSet(dim_list=out)
 
@@ -112,6 +117,7 @@ def sk_roundtrip(tier):
                     out.append({"ndim": k, "layout": layout, "col": col})
                 continue
             out.append({"ndim": k, "layout": layout})
+    out.append({"ndim": 2, "layout": "long_columns", "overlap": True})
     return out
 
 
@@ -130,6 +136,17 @@ def u_roundtrip(W, sk):
 
     rng = W.rng
     dims = make_dims(W, sk["ndim"])
+    if sk.get("overlap"):
+        # two dimensions whose item sets overlap or are nested (but differ), identified only through their items
+        from flodym.dimensions import Dimension, DimensionSet
+
+        a = ["EU", "US", "CN"][: rng.choice([2, 3])]
+        b = rng.choice([["US", "EU", "JP"], ["US", "EU"], ["EU", "US", "CN", "JP"]])
+        if set(a) == set(b):
+            b = b + ["IN"]
+        pair = [Dimension(name="Region", letter="r", items=a, dtype=str), Dimension(name="Destination", letter="d", items=b, dtype=str)]
+        rng.shuffle(pair)
+        dims = DimensionSet(dim_list=pair)
     layout = sk["layout"]
     sparse = layout == "sparse"
     x = make_array(W, dims, zeros=0.4 if sparse else 0.0)
@@ -168,6 +185,8 @@ def u_roundtrip(W, sk):
         g = g[cols]
         steps.append("columns permuted")
     style = rng.choice(["names", "letters", "items_only"])
+    if sk.get("overlap"):
+        style = "items_only"
     name2letter = {d.name: d.letter for d in dims.dim_list}
     if style == "letters":
         g = g.rename(columns=name2letter)
@@ -223,7 +242,10 @@ def u_roundtrip(W, sk):
         steps.append("CSV text round trip")
     W.inputs["transformations"] = steps
     g0 = g.copy(deep=True)
-    back = W.call(lambda: FlodymArray.from_df(dims=dims, df=g, allow_missing_values=sparse))
+    # allow_missing_values is needed for sparse tables; for complete tables it must not change anything
+    am = sparse or rng.random() < 0.4
+    W.inputs["allow_missing_values"] = am
+    back = W.call(lambda: FlodymArray.from_df(dims=dims, df=g, allow_missing_values=am))
     W.prove("from_df.given_table_unchanged", same_frame(g, g0), detail=f"after {steps}: columns {list(g0.columns)} -> {list(g.columns)}, dtypes {[str(t) for t in g0.dtypes]} -> {[str(t) for t in g.dtypes]}")
     W.prove("from_df.returns", back.kind == "return", detail=f"{back!r} after {steps}")
     if back.kind != "return":
